@@ -102,6 +102,18 @@ func check(c Case) error {
 		} else if !multisetEqual(vs, exp) {
 			return vk.Errf("AllVariantsIUPAC(%q) = %s, Cartesian product of the base sets is %s", s, clipList(vs), clipList(exp))
 		}
+		if len(vs) > 0 && len(vs) <= 4096 {
+			// the list belongs to the caller: overwritten and reversed, the same sequence (in the other letter case)
+			// expands again to the same set
+			for i := range vs {
+				vs[i] = "overwritten by the caller"
+			}
+			again, err := variants.AllVariantsIUPAC(strings.ToLower(s))
+			if err != nil || (len(s) > 0 && !multisetEqual(again, exp)) {
+				return vk.Errf("AllVariantsIUPAC(%q), after the caller had overwritten the list an earlier call returned for %q: %s (err %v), Cartesian product of the base sets is %s", strings.ToLower(s), s, clipList(again), err, clipList(exp))
+			}
+			vs = again
+		}
 		if len(s) > 0 {
 			// expansion commutes with reverse complement
 			rcVariants := make([]string, len(vs))
